@@ -75,7 +75,7 @@ def run(tier, seed):
             d.pop("case_meta", None)
             ctx.add_leg(d, {"panics": sum(1 for m in metas if m.get("outcome") == "panic")})
         # DAP requests of every kind with missing / ill-typed / boundary / non-ASCII / huge arguments
-        n = 400 if tier == "quick" else 8000
+        n = 400 if tier == "quick" else 2500
         d = ctx.run_leg("c08-dap", [seed, n, ctx.cases_dir, ctx.scratch + "/dap"])
         if d is not None:
             seen = set()
